@@ -878,7 +878,7 @@ func c09freeChild(raw json.RawMessage, scratch string) {
 func c09(c *wk.Ctx) {
 	r := c.R
 	r.Rule = "Mode A: seeded single-threaded programs of Write/Read/Buffered/Available/Close ops (chunks 0,1,cap-1,cap,cap+1,2cap+3,random; close at any step by either side, nil/custom error) executed one op at a time on helper goroutines; a byte-FIFO model predicts result-or-blocks, blocking/waking decided by goroutine state (parked in sync.Cond.Wait) not by timers; position-coded data. " +
-		"Mode B: free-running writer/reader goroutines with random chunking/yields and a close, under the race detector; stream-prefix + drain-before-error oracle. distinct = (backend, capacity, #blocks, #ring wraps, close kinds)"
+		"Mode B: free-running writer/reader goroutines with random chunking/yields and a close, under the race detector; stream-prefix + drain-before-error oracle. Long haul: 2^32 + 3 MiB bytes through one memory pipe that is never empty (capacities 192 KiB / 1 MiB / 12 KiB), every 8 bytes carrying their own stream offset. distinct = (backend, capacity, #blocks, #ring wraps, close kinds)"
 	if c.Replay != "" {
 		replayC09(c)
 		return
@@ -909,6 +909,10 @@ func c09(c *wk.Ctx) {
 	split("c09script", nFile, 3, true)
 	split("c09free", nFreeMem, 4, false)
 	split("c09free", nFreeFile, 2, true)
+	nLong := c.N(2, 6)
+	for k := 0; k < nLong; k++ {
+		jobs = append(jobs, job{"c09long", 5000000 + k, 5000000 + k + 1, false})
+	}
 	wk.Parallel(len(jobs), 15, func(i int) {
 		j := jobs[i]
 		// file cases use distinct index ranges so seeds differ from mem cases
@@ -925,6 +929,7 @@ func c09(c *wk.Ctx) {
 	r.Floor("reader_wakeups", 50)
 	r.Floor("ring_wraps", 50)
 	r.Floor("free_bytes", 1000000)
+	r.Floor("long_haul_gib_streamed", 8)
 	r.Assume("blocked/woken is read from runtime.Stack goroutine states ([sync.Cond.Wait]); one writer and one reader goroutine as in the property")
 }
 
